@@ -10,7 +10,8 @@ SERVICE_POOL = [pref.TTX_B, pref.VPS, pref.CC625, pref.WSS625, pref.TTX_B_L10, p
 # shapes that run into a recorded finding (see NOTES.md); value True = steer the generator away from it
 DEFAULT_SKIP = {
     'partial_message': True,        # F2 assert in vbi_proxy_msg_read_idle/is_idle on a message that arrives in two pieces
-    'extreme_duration': True,       # F3 signed overflow in vbi_proxyd_channel_timer_update with min_duration near INT64_MIN/MAX
+    'hdr_len_small': True,          # F10 header length < 8: recv() with a length of 2^32-1, then assert in vbi_proxy_msg_is_idle
+    'hdr_len_big': True,            # F11 header length > sizeof(VBIPROXY_MSG): assert in vbi_proxy_msg_handle_read
     'strict_oob': True,             # F4 SERVICE_REQ strict is not clamped
     'unheld_return': True,          # F5 NOTIFY(TOKEN) from a client that does not hold the token -> assert in get_token_owner
     'thread_start_race': True,      # F9 acquisition thread runs before max_lines is set when the first frame arrives at once
@@ -147,7 +148,7 @@ class Fuzz:
             s = services(rng)
             return kind, m.service_req(s, rng.choice([-1, 0, 1, 2]), rng.choice([0, 1])), {'benign': True, 'services': s}
         if kind == 'CHN_TOKEN_REQ':
-            prio = rng.choice([0, 0, 0, 1, 2])
+            prio = rng.choice([1, 1, 1, 1, 0, 2, 3])        # VBI_CHN_PRIO_BACKGROUND is 1
             valid = rng.choice([1, 1, 1, 0])
             return kind, m.token_req(prio, valid, rng.choice([0, 0x10, 0x20, 0x40]), rng.choice([0, 0, 1, 2])), {'ask': bool(valid), 'rel': True}
         if kind == 'CHN_NOTIFY_REQ':
@@ -215,7 +216,9 @@ class Fuzz:
                 ops.append(_send(m.raw(T[k], body), t=k, **meta))
                 ops.append(['r', rng.choice([5, 30, 120])])
         fault = rng.choice(['truncate', 'truncate', 'hdr_len', 'hdr_type', 'field', 'field', 'field', 'wrong_state', 'magic', 'oversize',
-                            'pipeline', 'stall', 'junk'])
+                            'pipeline', 'stall', 'junk', 'strict', 'token_misuse'])
+        if fault in ('strict', 'token_misuse') and not connect:
+            fault = 'field'
         # the message the fault is applied to
         if connect:
             k, body, meta = self.valid()
@@ -239,13 +242,47 @@ class Fuzz:
         elif fault == 'hdr_len':
             ln = rng.choice([0, 1, 7, 8, len(full) - 1, len(full) + 1, len(full) + 4, m.L['msg'] - 1, m.L['msg'], m.L['msg'] + 1, m.L['msg'] + 8,
                              0x7fffffff, 0x80000000, 0xffffffff])
+            if ln < 8 and self.skip.get('hdr_len_small'):
+                self.excluded += 1
+                ln = rng.choice([8, len(full) - 1, len(full) - 4])
+            if ln > m.L['msg'] and self.skip.get('hdr_len_big'):
+                self.excluded += 1
+                ln = rng.choice([m.L['msg'], m.L['msg'] - 1, len(full) + 1])
+            if ln < 8 and self.skip.get('hdr_len_small'):
+                ln = 8
             desc = '%s header len %d instead of %d' % (k, ln, len(full))
             data = m.raw(T[k], body, length=ln)
             if len(full) < ln <= m.L['msg'] and self.skip.get('partial_message'):
                 # the daemon would wait for the rest (a partial message): supply it
                 self.excluded += 1
                 data = data + bytes(ln - len(full))
+            if ln < 8 and rng.random() < 0.5:
+                # the bytes that follow a too short length are what the daemon reads next
+                data += bytes(rng.randrange(256) for _ in range(rng.choice([900, 1500, 5000])))
+                desc += ' + %d more bytes' % (len(data) - len(full))
             ops.append(_send(data, t=k, fault=desc, fault_kills=True))
+        elif fault == 'strict':
+            st = rng.choice([-128, -100, -2, 3, 4, 20, 60, 100, 127])
+            if self.skip.get('strict_oob'):
+                self.excluded += 1
+                st = rng.choice([-1, 0, 1, 2])
+            s2 = services(rng)
+            desc = 'SERVICE_REQ strict=%d' % st
+            ops.append(_send(m.raw(T['SERVICE_REQ'], m.service_req(s2, st, rng.choice([0, 1]))), t='SERVICE_REQ', fault=desc, services=s2))
+        elif fault == 'token_misuse':
+            # channel notifications that do not fit the token state
+            fl = rng.choice([2, 2, 3, 6, 0x1e])
+            if self.skip.get('unheld_return') and (fl & 2) and not (fl & 1):
+                self.excluded += 1
+                fl |= 1
+            desc = 'CHN_NOTIFY_REQ flags=0x%x without holding the token' % fl
+            if rng.random() < 0.5:
+                ops.append(_send(m.raw(T['CHN_TOKEN_REQ'], m.token_req(1, 1)), t='CHN_TOKEN_REQ', ask=True, rel=True))
+                ops.append(['r', rng.choice([5, 50])])
+            ops.append(_send(m.raw(T['CHN_NOTIFY_REQ'], m.notify_req(fl)), t='CHN_NOTIFY_REQ', fault=desc, rel=True, release=bool(fl & 1), flush=bool(fl & 4)))
+            ops.append(['r', rng.choice([50, 300])])
+            if rng.random() < 0.5:
+                ops.append(_send(m.raw(T['CHN_TOKEN_REQ'], m.token_req(1, 1)), t='CHN_TOKEN_REQ', ask=True, rel=True))
         elif fault == 'hdr_type':
             ty = rng.choice([24, 25, 255, 0x7fffffff, 0xffffffff, 1, 2, 4, 6, 7, 9, 10, 12, 13, 16, 17, 19, 20, 21, 23])
             desc = 'type %d with the body of %s' % (ty, k)
@@ -293,6 +330,9 @@ class Fuzz:
                 ops.append(_send(m.raw(T[k3], b3), t=k3, fault='after endian-swapped connect', **meta3))
         elif fault == 'oversize':
             size = rng.choice([m.L['msg'] - 8, m.L['msg'] - 9, m.L['msg'] - 7, m.L['msg'], 4096, 60000])
+            if size > m.L['msg'] - 8 and self.skip.get('hdr_len_big'):
+                self.excluded += 1
+                size = rng.choice([m.L['msg'] - 8, m.L['msg'] - 9, m.L['msg'] - 24])
             ty = rng.choice([T['CHN_IOCTL_REQ'], T['CONNECT_REQ'], T['SERVICE_REQ'], T['SLICED_IND']])
             junk = bytes(rng.randrange(256) for _ in range(size))
             if ty == T['CHN_IOCTL_REQ']:
@@ -307,11 +347,10 @@ class Fuzz:
             for _ in range(rng.choice([2, 3, 5])):
                 k2, b2, me = self.valid() if connect else ('CONNECT_REQ', m.connect_req(svc), {'services': svc})
                 parts.append(m.raw(T[k2], b2))
-                metas.append(k2)
-            desc = 'pipelined in one send: ' + '+'.join(metas)
-            if self.skip.get('partial_message') and False:
-                pass
-            ops.append(_send(b''.join(parts), t='junk', fault=desc, services=pref.SUPPORTED))
+                metas.append(dict(me, t=k2))
+            desc = 'pipelined in one send: ' + '+'.join(x['t'] for x in metas)
+            ops.append(_send(b''.join(parts), t='pipeline', fault=desc, services=pref.SUPPORTED, parts=metas,
+                             flush=any(x.get('flush') for x in metas)))
         elif fault == 'stall':
             desc = 'connected client that never reads'
             if not connect:
@@ -324,6 +363,8 @@ class Fuzz:
             if self.skip.get('partial_message'):
                 self.excluded += 1
                 data = m.raw(rng.randrange(0, 30), data)
+                if len(data) > m.L['msg'] and self.skip.get('hdr_len_big'):
+                    data = m.raw(rng.randrange(0, 30), data[8:8 + 64])
             ops.append(_send(data, t='junk', fault=desc, fault_kills=True))
         # aftermath
         r = rng.random()
@@ -346,7 +387,7 @@ class Fuzz:
 def witness(rng, idx, total_ms, background):
     ops = [['C', services(rng, allow_unsupported=False), rng.choice([0, 1]), 5, rng.choice([0, 0, 2])]]
     if background:
-        ops.append(['Q', 0, 0, 0, 0])
+        ops.append(['Q', 1, 0, 0, 0])              # background priority, no channel request
     ops.append(['T', total_ms])
     ops.append(['D'])
     return {'kind': 'lib', 'name': 'w%d' % idx, 'delay_ms': 0, 'ops': ops, 'witness': True}
@@ -356,7 +397,7 @@ def token_lib_client(rng, idx, total_ms, skip, fz):
     ops = [['C', services(rng, allow_unsupported=False), 0, 5, 0]]
     ops.append(['O', rng.choice([0, 1, 1, 2, 3])])
     ops.append(['G', rng.choice([0, 0, 0, 1, 2])])
-    prio = rng.choice([0, 0, 0, 0, 0, 1, 2])
+    prio = rng.choice([1, 1, 1, 1, 1, 1, 2, 3, 0])
     t = 0
     for rnd in range(rng.choice([1, 1, 2, 3])):
         ops.append(['Q', prio, rng.choice([0, 0x10, 0x10, 0x20, 0x40]), rng.choice([0, 0, 0, 1, 2]), 1])
@@ -393,7 +434,20 @@ def token_raw_client(rng, idx, msgb, fz):
     ops = [['c'], _send(m.raw(T['CONNECT_REQ'], m.connect_req(svc, name=b'tokraw%d' % idx)), t='CONNECT_REQ', benign=True, services=svc),
            ['w', T['CONNECT_CNF'], 1000]]
     for _ in range(rng.choice([1, 2, 3])):
-        ops.append(_send(m.raw(T['CHN_TOKEN_REQ'], m.token_req(0, 1, rng.choice([0, 0x10, 0x20]), rng.choice([0, 0, 1]))), t='CHN_TOKEN_REQ', ask=True, rel=True))
+        dur = rng.choice([0, 0, 1])
+        if rng.random() < 0.2:
+            if fz.skip.get('extreme_duration'):
+                fz.excluded += 1
+            else:
+                dur = rng.choice([2 ** 63 - 1, -2 ** 63, -1, -2 ** 62])
+        ops.append(_send(m.raw(T['CHN_TOKEN_REQ'], m.token_req(1, 1, rng.choice([0, 0x10, 0x20]), dur)), t='CHN_TOKEN_REQ', ask=True, rel=True,
+                         fault=('min_duration=%d' % dur) if abs(dur) > 2 else None))
+        if rng.random() < 0.25:
+            if fz.skip.get('unheld_return'):
+                fz.excluded += 1
+            else:
+                ops.append(['r', rng.choice([0, 20, 100])])
+                ops.append(_send(m.raw(T['CHN_NOTIFY_REQ'], m.notify_req(2)), t='CHN_NOTIFY_REQ', rel=True, fault='token returned without waiting for the grant'))
         ops.append(['w', T['CHN_TOKEN_IND'], rng.choice([150, 400, 900])])
         ops.append(['r', rng.choice([20, 150])])
         a = rng.random()
